@@ -18,9 +18,9 @@ def render(d, h):
         return "{ func := %s, field := %s, kind := %s }" % (L(w["func"]), L(w["field"]), L(w["kind"]))
 
     def entry(e):
-        return ("{ name := %s, resetFirst := %s, assigned := %s, calls := %s, exportedCalls := %s, fieldCalls := %s, writes := %s }"
+        return ("{ name := %s, resetFirst := %s, assigned := %s, calls := %s, exportedCalls := %s, fieldCalls := %s, writes := %s, reads := %s }"
                 % (L(e["name"]), "true" if e["reset_first"] else "false", sl(e.get("assigned")), sl(e.get("calls")),
-                   sl(e.get("exported_calls")), sl(e.get("field_calls")), sl(e.get("writes"))))
+                   sl(e.get("exported_calls")), sl(e.get("field_calls")), sl(e.get("writes")), sl(e.get("reads"))))
 
     def table(name, s):
         out = ["def %s : StructTable := {" % name]
